@@ -21,7 +21,7 @@ RULE = ('triple lists from graphs decoded from WF-T trees (null targets removed,
         '{"a,b" "a, b" "a ,b" "a , b"} x {"x^y" "x ^y" "x ^ y"} of each 2-triple conjunction. '
         'Non-trivial: the list has >=2 triples and a quoted-string target.')
 ANCHORS = ['penman._parse:_parse_triples', 'penman._parse:_parse_triple', 'penman._format:format_triples']
-MIN_EVAL = {'quick': 3000, 'thorough': 60000}
+MIN_EVAL = {'quick': 2000, 'thorough': 40000}
 REQUIRED_COUNTERS = ['string_targets', 'variants', 'long_lists']
 SRCS = ['a', 'b', 'x1', '_', 'n-0', '\u03b5', 'b.c']
 ROLES = [':instance', ':ARG0', ':ARG1-of', ':mod', ':op10', 'polarity', ':x-y', ':\u00e9t\u00e9', ':a.b']
